@@ -138,6 +138,14 @@ def cases(tier, seed):
         base = {'N': N, 'R': R, 'patterns': [[list(p) for p in pk] for pk in pats], 'rmax': rm}
         cs.append({'scen': 'tt_round', 's': dict(base, eps='zero')})
         cs.append({'scen': 'tt_round', 's': dict(base, eps='default')})
+    # operators whose bond rank lies between r*N and r*M*N of the core in front of it (the unfolding r*M*N x r' is tall although r*N < r'), eps = 0 / default / symbolic
+    for M, N, R, pats in [([3, 2], [1, 2], [1, 2, 1], [[[0, 0, 0, 0], [0, 1, 0, 1]], [[0, 0, 0, 0], [1, 1, 1, 0]]]),
+                          ([3, 2], [1, 1], [1, 2, 1], [[[0, 0, 0, 0], [0, 2, 0, 1]], [[0, 0, 0, 0], [1, 1, 0, 0]]]),
+                          ([2, 3, 2], [1, 1, 2], [1, 2, 2, 1], [[[0, 0, 0, 0], [0, 1, 0, 1]], [[0, 0, 0, 0], [1, 2, 0, 1]], [[0, 0, 0, 0], [1, 1, 1, 0]]])]:
+        base = {'N': N, 'M': M, 'R': R, 'patterns': pats}
+        cs.append({'scen': 'tt_round', 's': dict(base, eps='zero')})
+        cs.append({'scen': 'tt_round', 's': dict(base, eps='default')})
+        cs.append({'scen': 'tt_round', 's': dict(base)})
     # histories on one object: round, (replace a core,) round again
     for N, R, k in [([2, 2], [1, 2, 1], 0), ([2, 2], [1, 2, 1], 1), ([2, 2, 2], [1, 2, 2, 1], 1), ([2, 3], [1, 2, 1], 1)]:
         pats = gen_tt_pattern(N, R, rng, dense_slices=True, skip=0)
